@@ -240,30 +240,40 @@ def soft_call(f):
 
 
 def grouping_cases(ctx):
-    """the run-length grouping helper and the position -> outcome map it induces, exact"""
+    """the position -> outcome map of the axis grouping, read off the PUBLIC routine: the basis state |p> is measured (its
+    outcome is certain, whatever the generator draws) and the returned bit string is the outcome index position p contributes
+    to; the probability vector must be the indicator of that index.  Hard tie to the model's `keptIndexGrouped`.
+    Returns (ops, impl) for the hard tie and (ops, impl) for the optional comparison of the private helper."""
     import numqi
     st = numqi.sim.state
-    ops, impl = [], []
+    ops, impl, xops, ximpl = [], [], [], []
     nmax = 5 if ctx.quick() else 7
     for n in range(1, nmax + 1):
         for r in range(1, n + 1):
             for subset in itertools.combinations(range(n), r):
-                ops.append(f'C11 grouping {n} {idx_str(subset)}')
-                def f():
-                    shape, keep, red = st._measure_quantum_vector_hf0(n, tuple(subset))
+                ops.append(f'C11 kept {n} {idx_str(subset)}')
+                def h(n=n, subset=subset):
+                    out = []
+                    for p in range(2 ** n):
+                        e = np.zeros(2 ** n, dtype=np.complex128); e[p] = 1
+                        bitstr, prob, _ = st.measure_quantum_vector(e, subset, seed=p)
+                        v = int(''.join(str(int(b)) for b in bitstr), 2)
+                        if not (prob[v] == 1 and np.count_nonzero(prob) == 1):
+                            return f'not-an-indicator-at-position-{p}'
+                        out.append(v)
+                    return ';'.join(str(x) for x in out)
+                impl.append(guarded(h))
+                # optional extra: the private helper, only if it still has the known name, signature and return arity
+                xops.append(f'C11 grouping {n} {idx_str(subset)}')
+                def f(n=n, subset=subset):
+                    r3 = st._measure_quantum_vector_hf0(n, tuple(subset))
+                    if not (isinstance(r3, tuple) and len(r3) == 3):
+                        raise TypeError('different return arity')
+                    shape, keep, red = r3
                     g = lambda l: ';'.join(str(int(x)) for x in l) if len(l) else '-'
                     return f'{g(shape)} {g(keep)} {g(red)}'
-                impl.append(soft_call(f))
-                ops.append(f'C11 kept {n} {idx_str(subset)}')
-                def h():
-                    shape, keep, red = st._measure_quantum_vector_hf0(n, tuple(subset))
-                    pos = np.arange(2 ** n)
-                    multi = np.unravel_index(pos, shape)
-                    kshape = tuple(shape[d] for d in keep)
-                    flat = np.ravel_multi_index(tuple(multi[d] for d in keep), kshape)
-                    return ';'.join(str(int(x)) for x in flat)
-                impl.append(soft_call(h))
-    return ops, impl
+                ximpl.append(soft_call(f))
+    return ops, impl, xops, ximpl
 
 
 # ---------------------------------------------------------------------------
@@ -286,7 +296,7 @@ def _resolved_indices(steps):
 
 
 class CCase:
-    __slots__ = ('op', 'n', 'steps', 'psi', 'final', 'records', 'key', 'ntkey', 'err')
+    __slots__ = ('op', 'n', 'steps', 'psi', 'final', 'records', 'key', 'ntkey', 'err', 'tou', 'width', 'prog', 'last', 'expect_error')
 
 
 def circuit_cases(ctx, rng):
@@ -312,7 +322,10 @@ def circuit_cases(ctx, rng):
             elif r == 4 and nm < 3:
                 m = int(rng.integers(1, width + 1))
                 subset = tuple(sorted(int(x) for x in rng.permutation(width)[:m]))
-                steps.append(('m', subset, int(rng.integers(0, 2 ** 31))))
+                form = ['tuple', 'list', 'generator-seed', 'int'][int(rng.integers(0, 4))]
+                if form == 'int' and len(subset) != 1:
+                    form = 'tuple'
+                steps.append(('m', subset, int(rng.integers(0, 2 ** 31)), form))
                 nm += 1
             elif r == 5 and rng.integers(0, 2):
                 # shift (+/-, also repeatedly, also right after a measure entry): every index so far moves
@@ -353,6 +366,7 @@ def circuit_cases(ctx, rng):
             psi = r / np.linalg.norm(r)
         c = CCase()
         c.n, c.steps, c.psi, c.key, c.err = n, steps, psi, 'MeasureGate-in-circuit', None
+        c.tou, c.width, c.last = None, None, None
         try:
             circ = numqi.sim.Circuit()
             gates = []
@@ -362,12 +376,18 @@ def circuit_cases(ctx, rng):
                 elif s[0] == 'c':
                     circ.append_gate(numqi.sim.Gate('control', s[1]), (set(s[2]), s[3]))
                 elif s[0] == 'm':
-                    gates.append(circ.measure(s[1], seed=s[2]))
+                    form = s[3] if len(s) > 3 else 'tuple'
+                    idx = s[1][0] if form == 'int' else (list(s[1]) if form == 'list' else s[1])
+                    seed = np.random.default_rng(s[2]) if form == 'generator-seed' else s[2]
+                    gates.append(circ.measure(idx, seed=seed))
                 elif s[0] == 's':
                     circ.shift_qubit_index_(s[1])
+            # a circuit holding a MeasureGate has no unitary (circuit.py:445); its width counts the measured qubits (:463-464)
+            c.tou = guarded(lambda: 'returned-a-matrix' if isinstance(circ.to_unitary(), np.ndarray) else 'returned')
+            c.width = guarded(lambda: str(int(circ.num_qubit)))
             c.final = circ.apply_state(psi)
             c.records = [(list(gt.bitstr), np.array(gt.probability), tuple(gt.index)) for gt in gates]
-        except (AssertionError, ValueError, TypeError, IndexError, KeyError) as e:
+        except Exception as e:
             c.err = type(e).__name__
             c.final, c.records = None, []
         # the model's program: outcomes read back from the recorded bit strings
@@ -383,8 +403,101 @@ def circuit_cases(ctx, rng):
                 txt.append(f'm:{idx_str(s[1])}:{bits}'); k += 1
             elif s[0] == 's':
                 txt.append(f's:{s[1]}')
+        c.prog = "|".join(txt)
         c.op = f'C11 circ Q {n} {"|".join(txt)} {enc_q(psi)}'
         c.ntkey = ('circ', n, tuple(s[0] for s in steps), it)
+        cases.append(c)
+    return cases
+
+
+def spy_measure(gate, log):
+    """record what a MeasureGate holds after each of its forward calls (an object placed twice keeps only the last record)"""
+    orig = gate.forward
+    def forward(q0):
+        r = orig(q0)
+        log.append((list(gate.bitstr), np.array(gate.probability), tuple(gate.index), id(gate)))
+        return r
+    gate.forward = forward
+
+
+def extend_measure_cases(ctx, rng):
+    """one block holding a MeasureGate placed twice by extend_circuit (the same gate object at two positions): both records refer to
+    the state at their point of the circuit; afterwards the object holds the last one.  Also MeasureGate index handling through
+    Circuit.measure: descending / duplicate index, bare int."""
+    import numqi
+    cases = []
+    for it in range(12 if ctx.quick() else 100):
+        n = int(rng.integers(1, 4))
+        def rand_gate():
+            k = int(rng.integers(1, min(n, 2) + 1))
+            return ('u', REF['H'] if (k == 1 and rng.integers(0, 2)) else rand_int_unitary(rng, 2 ** k), tuple(int(x) for x in rng.permutation(n)[:k]))
+        pre = [rand_gate() for _ in range(int(rng.integers(0, 3)))]
+        subset = tuple(sorted(int(x) for x in rng.permutation(n)[:int(rng.integers(1, n + 1))]))
+        sub = [rand_gate() for _ in range(int(rng.integers(0, 2)))] + [('m', subset, int(rng.integers(0, 2 ** 31)))] + [rand_gate() for _ in range(int(rng.integers(0, 2)))]
+        mid = [('u', REF['H'], (int(subset[0]),))]
+        g = rand_gi(rng, 2 ** n, -2, 2)
+        if np.linalg.norm(g) == 0:
+            g[0] = 1
+        psi = g / np.linalg.norm(g)
+        c = CCase()
+        c.n, c.psi, c.key, c.err = n, psi, 'MeasureGate-placed-twice', None
+        c.steps = pre + sub + mid + sub          # the intended flat circuit
+        c.tou, c.width, c.last = None, None, None
+        log = []
+        try:
+            def build(entries, circ):
+                for s_ in entries:
+                    if s_[0] == 'u':
+                        circ.append_gate(numqi.sim.Gate('unitary', s_[1]), s_[2])
+                    else:
+                        spy_measure(circ.measure(s_[1], seed=s_[2]), log)
+            circ = numqi.sim.Circuit(); build(pre, circ)
+            block = numqi.sim.Circuit(); build(sub, block)
+            circ.extend_circuit(block)
+            build(mid, circ)
+            circ.extend_circuit(block)
+            c.tou = guarded(lambda: 'returned-a-matrix' if isinstance(circ.to_unitary(), np.ndarray) else 'returned')
+            c.width = guarded(lambda: str(int(circ.num_qubit)))
+            c.final = circ.apply_state(psi)
+            c.records = [(r[0], r[1], r[2]) for r in log]
+            mg = [g_ for g_, _ in block.gate_index_list if g_.kind == 'measure'][0]
+            c.last = (list(mg.bitstr), np.array(mg.probability))
+        except Exception as e:
+            c.err = type(e).__name__
+            c.final, c.records = None, []
+        txt, k = [], 0
+        for s_ in c.steps:
+            if s_[0] == 'u':
+                txt.append(f'u:{idx_str(s_[2])}:{enc_q(s_[1])}')
+            else:
+                bits = ''.join(str(int(b)) for b in c.records[k][0]) if k < len(c.records) else '0' * len(s_[1])
+                txt.append(f'm:{idx_str(s_[1])}:{bits}'); k += 1
+        c.prog = '|'.join(txt)
+        c.op = f'C11 circ Q {n} {c.prog} {enc_q(psi)}'
+        c.ntkey = ('placed-twice', n, it)
+        cases.append(c)
+    # index handling of MeasureGate.__init__ through Circuit.measure (circuit.py:30-32)
+    psi3 = np.zeros(8, dtype=np.complex128); psi3[5] = 1
+    for idx, form in [((1, 0), 'tuple'), ((2, 1), 'tuple'), ((1, 1), 'tuple'), ((0, 0, 2), 'tuple'), ((2,), 'int'), ((0,), 'int'), ((3,), 'tuple'), ((0, 2), 'list')]:
+        c = CCase()
+        c.n, c.psi, c.key, c.err = 3, psi3, 'MeasureGate-index-handling', None
+        c.expect_error = (form == 'tuple' and tuple(idx) != tuple(sorted(set(idx)))) or max(idx) >= 3
+        c.steps = [('m', idx, 7, form)]
+        c.tou, c.width, c.last = None, None, None
+        try:
+            circ = numqi.sim.Circuit()
+            gt = circ.measure(idx[0] if form == 'int' else (list(idx) if form == 'list' else idx), seed=7)
+            c.tou = guarded(lambda: 'returned-a-matrix' if isinstance(circ.to_unitary(), np.ndarray) else 'returned')
+            c.width = guarded(lambda: str(int(circ.num_qubit)))
+            c.final = circ.apply_state(psi3)
+            c.records = [(list(gt.bitstr), np.array(gt.probability), tuple(gt.index))]
+        except Exception as e:
+            c.err = type(e).__name__
+            c.final, c.records = None, []
+        bits = ''.join(str(int(b)) for b in c.records[0][0]) if c.records else '0' * len(idx)
+        c.prog = f'm:{idx_str(idx)}:{bits}'
+        c.op = f'C11 circ Q 3 {c.prog} {enc_q(psi3)}'
+        c.ntkey = ('index-handling', idx, form)
         cases.append(c)
     return cases
 
@@ -447,7 +560,7 @@ def all_cases(ctx):
     if 'm' not in _CACHE:
         rng = np.random.default_rng(ctx.np_seed)
         _CACHE['m'] = measure_cases(ctx, rng)
-        _CACHE['c'] = circuit_cases(ctx, rng)
+        _CACHE['c'] = circuit_cases(ctx, rng) + extend_measure_cases(ctx, rng)
     return _CACHE['m'], _CACHE['c']
 
 
@@ -465,7 +578,7 @@ def malformed(ctx):
 def correspondence(ctx):
     mc, cc = all_cases(ctx)
     ops = [c.op for c in mc] + [c.op for c in cc]
-    gops, gimpl = grouping_cases(ctx)
+    gops, gimpl, xops, ximpl = grouping_cases(ctx)
     mops, mimpl = malformed(ctx)
     model = common.run_model(ops + gops + mops, pid='C11')
     for c, line in zip(mc, model[:len(mc)]):
@@ -486,17 +599,29 @@ def correspondence(ctx):
             ctx.agree(c.op, c.ntkey)
         else:
             ctx.disagree(c.op[:3000], (why + ': ' + line)[:1500], repr((c.final, c.records))[:1500])
+    # a circuit holding a MeasureGate: to_unitary refuses, num_qubit counts the measured qubits
+    wops, wimpl = [], []
+    for c in cc:
+        if c.err is None and c.prog:
+            wops.append(f'C11 unitary Q {c.prog}'); wimpl.append(c.tou)
+            wops.append(f'C11 width Q {c.prog}'); wimpl.append(c.width)
+    common.compare(ctx, wops, wimpl, common.run_model(wops, pid='C11') if wops else [], key=lambda op: 'MeasureGate:' + op.split(' ')[1])
     off = len(mc) + len(cc)
-    # the grouping helper is internal: a mismatch with its literal model is recorded, not alarmed on (the public routine is
-    # compared on every subset above)
-    for op, a, b in zip(gops, gimpl, model[off:off + len(gops)]):
-        ctx.count(op.split(' ')[1])
-        if a == b:
-            ctx.agree(op, op)
-        else:
-            ctx.count('internal-helper-tie-mismatch')
+    # the position -> outcome map of the grouping, derived through the public routine: hard tie
+    common.compare(ctx, gops, gimpl, model[off:off + len(gops)])
+    # optional extra: the private helper itself, compared only when it is still callable with the known signature / arity
+    xmodel = common.run_model(xops, pid='C11') if xops else []
+    for op, a, b in zip(xops, ximpl, xmodel):
+        if a.startswith('unavailable:'):
+            ctx.count('private-helper-not-comparable')
             if not any('_measure_quantum_vector_hf0' in x for x in ctx.notes):
-                ctx.note(f'_measure_quantum_vector_hf0 no longer matches its literal model (e.g. {op}: impl {a[:60]} / model {b[:60]}); not a property violation by itself')
+                ctx.note('_measure_quantum_vector_hf0 is no longer callable with the known signature / return arity: the optional helper comparison is skipped (its effect is tied through measure_quantum_vector)')
+        elif a == b:
+            ctx.count('grouping'); ctx.agree(op, op)
+        else:
+            ctx.count('private-helper-differs')
+            if not any('differs from its literal model' in x for x in ctx.notes):
+                ctx.note(f'_measure_quantum_vector_hf0 differs from its literal model (e.g. {op}: impl {a[:60]} / model {b[:60]}); informational, the public routine is tied on every subset')
     common.compare(ctx, mops, mimpl, model[off + len(gops):], key=lambda op: 'malformed')
     for c in mc[:2]:
         ctx.sample({'op': c.op[:160], 'bitstr': None if isinstance(c.res, str) else [int(b) for b in c.res[0]]})
@@ -541,6 +666,12 @@ def probe(ctx):
         ctx.probe_ok(('probe',) + c.ntkey)
     for c in cc:
         rp = dict(fn='Circuit.apply_state with MeasureGate', n=c.n, steps=repr([(s[0],) + tuple((a.tolist() if isinstance(a, np.ndarray) else a) for a in s[1:]) for s in c.steps]), psi=repr(c.psi.tolist()))
+        if getattr(c, 'expect_error', False):
+            if c.err is None:
+                ctx.fail('MeasureGate:index-accepted', 'a descending / duplicate / out-of-range measure index was accepted', rp)
+            else:
+                ctx.probe_ok(('probe',) + c.ntkey)
+            continue
         if c.err is not None:
             ctx.fail('MeasureGate:raises', 'circuit with measure gates raised ' + c.err, rp); continue
         recs, final = oracle_circuit(c)
